@@ -136,6 +136,11 @@ def nonplain_cases():
         yield [1, z]
         yield {"a": z}
         yield {"a": [1, {"b": z}]}
+    # `...` as a dict key is a placeholder, not plain data (with a plain or a placeholder value)
+    for d in ({Ellipsis: 1}, {Ellipsis: Ellipsis}, {"a": 1, Ellipsis: "x"}):
+        yield d
+        yield [d]
+        yield {"a": d}
 
 
 def judge_nonplain(v):
